@@ -435,8 +435,11 @@ pub fn encode_with_dist_header_multi(terms: &[&OwnedTerm]) -> Result<Vec<u8>, En
     }
 
     if atom_set.is_empty() {
+        // a header without atom references: NumberOfAtomCacheRefs = 0, no flags
         let mut buf = BytesMut::new();
         buf.put_u8(VERSION);
+        buf.put_u8(DIST_HEADER);
+        buf.put_u8(0);
         for term in terms {
             encode_term(&mut buf, term)?;
         }
